@@ -50,8 +50,8 @@ const (
 )
 
 type nodeTemplate struct {
-	dir        string
-	genesisSig cipher.Sig
+	dir         string
+	genesisSig  cipher.Sig
 	genesisHash cipher.SHA256
 	// material for requests
 	spentTxnHex   string // encoded, fully signed transaction whose inputs are all spent and that is NOT in the chain
@@ -329,13 +329,14 @@ func getTemplate() (*nodeTemplate, error) {
 var daemonNewMu sync.Mutex
 
 type liveNode struct {
-	dir string
-	db  *dbutil.DB
-	v   *visor.Visor
-	d   *daemon.Daemon
-	ws  *wallet.Service
-	mux http.Handler
-	run chan error
+	dir    string
+	db     *dbutil.DB
+	v      *visor.Visor
+	d      *daemon.Daemon
+	ws     *wallet.Service
+	mux    http.Handler
+	run    chan error
+	wedged bool // a request to this node never returned
 }
 
 func copyTree(src, dst string) error {
@@ -442,12 +443,27 @@ func (n *liveNode) stop() error {
 		close(done)
 	}()
 	var err error
+	limit := 60 * time.Second
+	if n.wedged {
+		limit = 5 * time.Second // a handler of this node never returned: it may hold the database or a gateway lock for good
+	}
 	select {
 	case <-done:
-	case <-time.After(60 * time.Second):
-		err = fmt.Errorf("daemon shutdown did not finish within 60 s")
+	case <-time.After(limit):
+		err = fmt.Errorf("daemon shutdown did not finish within %v", limit)
 	}
-	n.db.Close()
+	closed := make(chan struct{})
+	go func() { n.db.Close(); close(closed) }()
+	select {
+	case <-closed:
+	case <-time.After(limit):
+		if err == nil && !n.wedged {
+			err = fmt.Errorf("database did not close within %v", limit)
+		}
+	}
 	os.RemoveAll(n.dir)
+	if n.wedged {
+		return nil // the hang itself is what gets reported
+	}
 	return err
 }
